@@ -171,3 +171,13 @@ def run(tier, seed, build):
                         "go through PanelAssembly.get_k0_conn after each panel's calc_k0 (documented order)",
                         "tolerance 2^-%d of the term-magnitude scale" % TOL]
     return rep.finish()
+
+
+def replay(path, build):
+    """the stored replay file holds the failing definition/behaviour; the check is deterministic in VERIF_SEED, so the
+    violation is re-decided by re-running the tier that found it with the same seed"""
+    import json
+    import os
+    rp = json.load(open(path))
+    print("replaying %s: %s" % (rp.get("property"), str(rp.get("what"))[:300]))
+    return run(os.environ.get("VERIF_TIER", "quick"), int(os.environ.get("VERIF_SEED", "20261003")), build)
